@@ -123,6 +123,8 @@ def gen_tree(rng, want_ignore, want_links, want_shm):
         for _ in range(nlinks):
             d = rng.choice(dirs)
             name = rng.choice(LINK_NAMES)
+            if want_ignore and rng.chance(1, 4):
+                name = rng.choice(IGN_DIRS)          # a link whose name a directory-only rule `name/` of an ignore file may list
             if name in names_in.get(d, set()):
                 continue
             names_in.setdefault(d, set()).add(name)
@@ -147,6 +149,11 @@ def gen_tree(rng, want_ignore, want_links, want_shm):
             else:
                 tgt = ("T", rng.choice(dirs + files), absolute)
             entries.append([lp, "L", list(tgt)])
+            if want_ignore and name in IGN_DIRS and rng.chance(2, 3) and not ({".gitignore", ".fdignore"} & names_in.get(d, set())):
+                # the directory-only rule `name/` next to a LINK of that name: a link is not a directory for the ignore rules
+                fname = rng.choice([".gitignore", ".fdignore"])
+                entries.append([os.path.join(d, fname) if d else fname, "I", [name + "/"]])
+                names_in.setdefault(d, set()).add(fname)
         if rng.chance(1, 5):
             d = rng.choice(dirs)
             if not ({"m1", "m2"} & names_in.get(d, set())):
@@ -262,6 +269,21 @@ def gen_directed(rng, which):
                        ["in/" + rng.choice([".gitignore", ".fdignore"]), "I", [rng.choice(["x.log", "*.log"])]],
                        ["in/l", "L", ["R", "sub/x.log", False]]]
             roots = ["in"]
+        return {"top": "top", "entries": entries, "shm": None}, o, roots, ""
+    elif which == "ign_dirrule_link":
+        # a directory-only ignore rule `name/` and a LINK of that name (to a file / to a directory): a link is not a
+        # directory for the rule, so the link is looked at (-S: listed; -L: its target visited, also when the target is
+        # reachable in no other way)
+        nm = rng.choice(["cache", "build", d if d not in ("sub", "keep") else "cache"])
+        entries = [["in", "D", None], ["in/sub", "D", None], ["out", "D", None], ["out/y.bin", "F", 3], ["out/dd", "D", None],
+                   ["out/dd/z", "F", 2], ["in/keep", "F", 3],
+                   ["in/" + rng.choice([".gitignore", ".fdignore"]), "I", [nm + "/"]],
+                   ["in/" + nm, "L", ["T", "out/y.bin", rng.chance(1, 2)]],
+                   ["in/sub/" + nm, "L", ["T", rng.choice(["out/y.bin", "out/dd", "in/keep"]), rng.chance(1, 2)]]]
+        o["no_ignore"] = False
+        o["follow"] = rng.chance(1, 2)
+        o["symlinks"] = (not o["follow"]) or rng.chance(1, 3)
+        roots = ["in"]
         return {"top": "top", "entries": entries, "shm": None}, o, roots, ""
     elif which == "icase_upper":
         # --ignore-case with literal pattern prefixes over names with upper-case non-ASCII letters,
@@ -1236,7 +1258,7 @@ def run(ctx):
                 which = ["n1_depth", "n1_roots", "n1_ignore", "n5", "n2"][(ti // 8) % 5]
                 extra = ["ov_depth", "ov_ignore", "ov_repeat", "cwd_meta"][(ti // 8) % 4]
                 for wi, which in enumerate((which, extra, "cwd_meta" if extra != "cwd_meta" else "ov_depth",
-                                            "icase_upper", "twins", "link_file") + (("n7",) if (ti // 8) % 2 == 0 else ())):
+                                            "icase_upper", "twins", "link_file", "ign_dirrule_link") + (("n7",) if (ti // 8) % 2 == 0 else ())):
                     dspec, dopts, droots, dcwd = gen_directed(rng, which)
                     dtree = prepare(ctx, dspec, "d%d_%d" % (ti, wi), rng, False)
                     dopts["paths"] = [gesc(dtree["top"] + "/" + x[4:-3]) + "/**" if x.startswith("TOP:") else x for x in dopts["paths"]]
@@ -1269,6 +1291,9 @@ def run(ctx):
         # --follow-links over link targets in every spelling (absolute through another link, `..`, chains): model-free oracle
         from . import links_rt
         links_rt.follow_alias_check(ctx, ctx.pick(30, 400))
+        # input paths inside other input paths that the outer walk does not reach (hidden / ignored), with and without -L
+        from . import nested_rt
+        nested_rt.nested_unreached_roots_check(ctx, ctx.pick(40, 400), "C09")
     finally:
         for d in ctx.shm_dirs:
             shutil.rmtree(d, ignore_errors=True)
